@@ -66,7 +66,8 @@ META = {
         "assignment on every path (a candidate computed in the return expression is untested). "
         "R8 monotone slug registry: between the per-parse reset and the export as document.myst_slugs the registry is never re-bound "
         "to another object or emptied and no entry is removed. "
-        "R9 title text: clean_astext has an image-alt step and a raw-node step, every return comes after each step (or is an early exit "
+        "R9 title text: clean_astext has an image-alt step, a raw-node step and a system_message step, each ranging over all descendants "
+        "of the element (not only its direct children), every return comes after each step (or is an early exit "
         "whose condition examines that node class), and the steps run on a deep copy. "
         "R10 complete slug registry: every path through render_heading (helpers inlined) hands the heading to generate_heading_target, "
         "and there the store into the slug registry is guarded by nothing but the anchor-depth test (heading_anchors). "
@@ -2808,7 +2809,7 @@ def r8_slug_registry_monotone(corpus: Corpus, rep: Report, tier: str):
 @rule("C09.R9")
 def r9_title_text_sanitised(corpus: Corpus, rep: Report, tier: str):
     R9 = "C09.R9"
-    rep.rule(R9, "clean_astext (the one source of a target's title text, for the slug registry and the explicit registry alike) applies each of its sanitising steps (image alt, raw nodes) before every return, on a copy")
+    rep.rule(R9, "clean_astext (the one source of a target's title text, for the slug registry and the explicit registry alike) applies each of its sanitising steps (image alt, raw nodes, system messages - each over all descendants) before every return, on a copy")
     base = corpus.mod(BASE)
     f = _inlined(corpus, base.func("clean_astext"))
     rep.saw_function(f.fq)
@@ -2823,12 +2824,39 @@ def r9_title_text_sanitised(corpus: Corpus, rep: Report, tier: str):
     if not steps or not rets:
         raise Unsupported(f"clean_astext: {len(steps)} sanitising loop(s), {len(rets)} return(s): shape not recognised")
     have = {c for _, cls in steps for c in cls}
-    for need, why in (("image", "the alt text of an image is not title text"), ("raw", "raw (HTML/LaTeX) markup is not title text")):
+    # steps that only look at the direct children of the element (`for x in node.children` / `[c for c in node.children if isinstance(c, K)]`)
+    shallow: dict[str, ast.AST] = {}
+    for n in f.local_nodes():
+        if not isinstance(n, ast.For) or any(n is lp for lp, _ in steps):
+            continue
+        srcs = [n.iter] + [g.iter for c in ast.walk(n.iter) if isinstance(c, (ast.ListComp, ast.GeneratorExp, ast.SetComp)) for g in c.generators]
+        direct = any(
+            (isinstance(x, ast.Attribute) and x.attr == "children") or (isinstance(x, ast.Name) and x.id in f.params)
+            for x in srcs
+        ) and not any(isinstance(c, ast.Call) and (dotted(c.func) or "").rsplit(".", 1)[-1] in ("findall", "traverse") for c in ast.walk(n.iter))
+        if not direct:
+            continue
+        cls = {c for x in list(ast.walk(n.iter)) + [y for b in n.body for y in ast.walk(b)] for c in (_node_classes(f, x) or set()) if isinstance(x, (ast.Attribute, ast.Name))}
+        for c in cls:
+            shallow.setdefault(c, n)
+    for need, why in (
+        ("image", "the alt text of an image is not title text"),
+        ("raw", "raw (HTML/LaTeX) markup is not title text"),
+        ("system_message", "a warning raised while the heading/caption content was rendered is appended to whatever node was current - possibly nested, e.g. inside emphasis - and is not title text"),
+    ):
         k = f"{f.fq}|has a nodes.{need} step"
         if need in have:
-            rep.ok(R9, k, f.site())
+            rep.ok(R9, k, f.site(), "over all descendants")
+        elif need in shallow:
+            rep.violation(
+                R9,
+                k,
+                f.module.site(shallow[need]),
+                f"`{short(shallow[need], 60)}` handles nodes.{need} only among the direct children of the element: a nested one ({why}) stays in, so e.g. the text of a warning "
+                "raised inside `# Title *with {unknown}`x`*` becomes part of the title that fills empty '#' links (and of the section name)",
+            )
         else:
-            rep.violation(R9, k, f.site(), f"clean_astext has no step for nodes.{need} ({why}; sphinx.util.nodes.clean_astext, which this copies, has one)")
+            rep.violation(R9, k, f.site(), f"clean_astext has no step for nodes.{need} ({why})")
     for r in rets:
         guards = cfg.guards(r)
         examined = {c for e, _ in guards for x in _closure(f, e) for y in ast.walk(x) for c in (_node_classes(f, y) or set()) if isinstance(y, (ast.Attribute, ast.Name))}
@@ -2852,7 +2880,7 @@ def r9_title_text_sanitised(corpus: Corpus, rep: Report, tier: str):
         rep.ok(R9, k, f.module.site(copies[0]))
     else:
         rep.violation(R9, k, f.site(), "the sanitising loops run on the document's own nodes, not on a deep copy: resolving a link removes raw nodes / alt texts from the target heading")
-    rep.expect_min(R9, 5, "two required steps, each before the return, + the copy")
+    rep.expect_min(R9, 6, "three required steps, each before the return, + the copy")
 
 
 # ---------------------------------------------------------------------------
@@ -3421,4 +3449,17 @@ def mutants(corpus: Corpus):
         add("c09-explicit-hit-only-for-links-with-text", R3, tr, splice(tr.src, e_if.test, f"{_seg(tr, e_if.test)} and {rs.var}.children"), "explicit lookup dominates")
         # 6e5f09e: a registry entry whose node a directive discarded is not a hit; without the liveness conjunct nothing in C09's
         # rules changes (a value question: is the id in the tree) - no revert mutant, see META.not_decided
+    # ---- R9: a sanitising step narrowed to the direct children / removed ----------------------------------------------------------------
+    for cls_name in ("system_message", "raw"):
+        lp_ = find_node(cat, lambda n: isinstance(n, ast.For) and any(isinstance(x, ast.Attribute) and x.attr == cls_name for x in ast.walk(n.iter)))
+        if lp_ is not None and isinstance(lp_.target, ast.Name):
+            v_ = lp_.target.id
+            prm = cat.params[0]
+            add(f"c09-title-text-{cls_name.replace('_', '-')}-step-direct-children-only", "C09.R9", base,
+                splice(base.src, lp_, f"for {v_} in [c for c in {prm}.children if isinstance(c, nodes.{cls_name})]:\n{_indent(base, lp_)}    {prm}.remove({v_})"), f"nodes.{cls_name} step")
+    sm = find_node(cat, lambda n: isinstance(n, ast.For) and any(isinstance(x, ast.Attribute) and x.attr == "system_message" for x in ast.walk(n.iter)))
+    if sm is not None:  # revert of d24bc2f (warnings inside a heading became part of link texts)
+        add("c09-title-text-system-message-step-lost", "C09.R9", base, splice(base.src, sm, "pass"), "nodes.system_message step")
+    else:
+        out.append(("c09-title-text-system-message-step-lost", "clean_astext has no system_message step on this tree"))
     return out
